@@ -18,7 +18,8 @@ try:
     diff = os.path.join(sd, f"R{k}.diff")
     chk = os.path.join(sd, f"check_R{k}.py")
     subprocess.check_call(["git", "-C", wt, "apply", diff])
-    shutil.copy(chk, os.path.join(wt, f"check_R{k}.py"))
+    # a script that pins the agent's own worktree path is pointed at this worktree instead
+    open(os.path.join(wt, f"check_R{k}.py"), "w").write(open(chk).read().replace(sd.rstrip("/"), wt))
     shutil.copy(diff, os.path.join(wt, f"R{k}.diff"))
     rc = subprocess.run(["/venv/bin/python", "-W", "ignore", f"check_R{k}.py"], cwd=wt, capture_output=True, text=True, timeout=1800)
     out["check_exit"] = rc.returncode
